@@ -133,7 +133,11 @@ func init() {
 		models[recv+".Defer"] = nop
 	}
 	models[memdbPkg+".Txn.Commit"] = modelCommitRaw
-	models[statePkg+".txn.Commit"] = modelCommit
+	// (*state.txn).Commit is verified from its body (contract in agent/consul/state/verif_contracts.go)
+	_ = modelCommit
+	models[memdbPkg+".Txn.Changes"] = func(f *Frame, st *State, e *ast.CallExpr, recv *Term, args []*Term, sig *types.Signature) []*Term {
+		return f.havocResults(st, sig)
+	}
 	models[memdbPkg+".ResultIterator.Next"] = modelIterNext
 	models[memdbPkg+".ResultIterator.WatchCh"] = nop
 	models[statePkg+".changeTrackerDB.WriteTxn"] = modelNewTxn
@@ -166,9 +170,11 @@ func (f *Frame) someError() *Term {
 // ---------------------------------------------------------------- memdb tables
 
 type indexSpec struct {
-	kind  string // id | prefix | fieldeq | all
-	field string
-	lower bool
+	kind   string // id | prefix | fieldeq | multieq
+	field  string
+	lower  bool
+	fields []string // multieq: one argument per field, compared after lower-casing when lowers[i]
+	lowers []bool
 }
 
 type tableSpec struct {
@@ -228,6 +234,8 @@ func init() {
 		altPkg: statePkg, altType: "NodeServiceQuery", altFields: []string{"PeerName", "Node", "Service"}})
 	addTable(&tableSpec{name: "config-entries", ifaceRow: true, ifacePkg: structsPkg, ifaceType: "ConfigEntry", ifaceKeyMeth: []string{"GetKind", "GetName"},
 		keyLower: []bool{true, true}, altPkg: consulMod + "/agent/configentry", altType: "KindName", altFields: []string{"Kind", "Name"}})
+	addTable(&tableSpec{name: "connect-intentions", rowPkg: structsPkg, rowType: "Intention", keyField: "ID", lower: true,
+		indexes: map[string]indexSpec{"source_destination": {kind: "multieq", fields: []string{"SourceNS", "SourceName", "DestinationNS", "DestinationName"}, lowers: []bool{true, true, true, true}}}})
 	addTable(&tableSpec{name: "index", rowPkg: statePkg, rowType: "IndexEntry", keyField: "Key", lower: true})
 	addTable(&tableSpec{name: "sessions", rowPkg: structsPkg, rowType: "Session", keyField: "ID", lower: true,
 		indexes: map[string]indexSpec{"node": {kind: "fieldeq", field: "Node", lower: true}, "id_prefix": {kind: "prefix"}}})
@@ -671,6 +679,46 @@ func (f *Frame) memdbLookup(st *State, e *ast.CallExpr, args []*Term) (*Term, *T
 		c.assume(st, Implies(Eq(r, IntLit(0)), Forall([]*Term{kb}, Implies(Ne(rowAt, IntLit(0)), Ne(fv2, v)), rowAt)))
 		return r, failed
 	}
+	if ix.kind == "multieq" {
+		var want []*Term
+		for i := range ix.fields {
+			v, at, ok := f.varArg(st, e, packed, 2, i)
+			if !ok {
+				f.fail(e, "First on compound index needs %d arguments", len(ix.fields))
+			}
+			v = f.argString(st, v, at, e)
+			if i < len(ix.lowers) && ix.lowers[i] {
+				v = c.strLower(v)
+			}
+			want = append(want, v)
+		}
+		match := func(w *State, row *Term) *Term {
+			var cs []*Term
+			for i, fld := range ix.fields {
+				fv := f.rowField(w, t, row, fld)
+				if i < len(ix.lowers) && ix.lowers[i] {
+					fv = c.strLower(fv)
+				}
+				cs = append(cs, Eq(fv, want[i]))
+			}
+			return And(cs...)
+		}
+		r := c.fresh("first", SInt)
+		tb := f.tableArr(st, t)
+		work := st.clone()
+		kr := f.rowKey(work, t, r)
+		c.assume(st, Implies(Ne(r, IntLit(0)), And(Eq(Select(tb, kr), r), match(work, r))))
+		kb := c.bvar("k", SStr)
+		rowAt := Select(tb, kb)
+		w2 := st.clone()
+		w2.pc = TTrue
+		c.inQuant++
+		m2 := match(w2, rowAt)
+		c.inQuant--
+		c.assume(st, Implies(Eq(r, IntLit(0)), Forall([]*Term{kb}, Implies(Ne(rowAt, IntLit(0)), Not(m2)), rowAt)))
+		f.tableWF(st, t)
+		return r, failed
+	}
 	f.fail(e, "First on index kind %s unsupported", ix.kind)
 	return nil, nil
 }
@@ -923,6 +971,10 @@ func modelIterNext(f *Frame, st *State, e *ast.CallExpr, recv *Term, args []*Ter
 
 func modelNewTxn(f *Frame, st *State, e *ast.CallExpr, recv *Term, args []*Term, sig *types.Signature) []*Term {
 	c := f.c
+	if f.top != nil && f.top.contract != nil && f.top.contract.Opts["single-txn"] != "" {
+		// isolation: code running inside a transaction must read and write through that transaction only
+		c.oblige(st, TFalse, f.top.contract.Name+"#single-txn: opens another transaction at "+f.eng.pos(e.Pos()), nil)
+	}
 	tx := f.alloc(st)
 	for _, h := range []string{"TX!committed", "TX!aborted"} {
 		a := c.heapGet(st, h, ArrSort(SInt, SBool))
